@@ -559,18 +559,16 @@ Theorem c19_decimal_sum_value : forall m1 e1 m2 e2 k,
 Proof. exact dec_add_exact_value. Qed.
 Print Assumptions c19_decimal_sum_value.
 
-(** Known finding float-modulo-decimal-InvalidOperation: with a float operand
-    [modulo] can escape with decimal.InvalidOperation; with ints it cannot. *)
-Theorem c19_modulo_float_total_refuted :
-  exists a b, modulo_f a b = PyExc DecimalInvalidOperation.
-Proof. exact modulo_float_total_refuted. Qed.
-Print Assumptions c19_modulo_float_total_refuted.
-
-Theorem c19_modulo_int_total_partial : forall a b,
-  exists r, modulo_f (FInt a) (FInt b) = r /\
-            match r with Ok (FInt _) | LErr LiquidTypeError _ => True | _ => False end.
-Proof. exact modulo_int_total_partial. Qed.
-Print Assumptions c19_modulo_int_total_partial.
+(** [modulo] never lets a Python exception escape (float zero divisors are
+    LiquidTypeError too; [OtherPyError] marks operands outside the model). *)
+Theorem c19_modulo_no_python_exception : forall a b,
+  match modulo_f a b with
+  | Ok _ | LErr LiquidTypeError _ => True
+  | PyExc k => k = OtherPyError
+  | _ => False
+  end.
+Proof. exact modulo_no_python_exception. Qed.
+Print Assumptions c19_modulo_no_python_exception.
 
 (** Known finding sort-missing-key-non-string-property: with numeric
     properties a hash without the property makes [sort: 'k'] fail, so
